@@ -11,6 +11,7 @@ import (
 	"github.com/hattya/go.sh/interp"
 	"github.com/hattya/go.sh/parser"
 	"github.com/hattya/go.sh/pattern"
+	"github.com/hattya/go.sh/printer"
 	"pgregory.net/rapid"
 
 	"verif/ref"
@@ -22,6 +23,108 @@ type c15Case struct {
 	S     string `json:"s"`
 	Quote string `json:"quote"` // single | double | backslash | mixed:<choices>
 	Mode  uint   `json:"mode"`  // interp.ExpMode bits
+	// Ctx: where in a command the word stands (see c15Contexts); "" = the
+	// only argument of a command, at the end of the input.
+	Ctx string `json:"ctx,omitempty"`
+}
+
+// c15Contexts: source templates (%s = the quoted word) and how to find the
+// word in the tree. The words "yy" that follow must stay words of their own.
+var c15Contexts = map[string]struct {
+	tmpl string
+	find func(c ast.Command) (ast.Word, bool)
+}{
+	"arg_newline":   {"_ %s\n", func(c ast.Command) (ast.Word, bool) { return c15Arg(c, 2, 1) }},
+	"arg_then_word": {"_ %s yy\n", func(c ast.Command) (ast.Word, bool) { return c15Arg(c, 3, 1) }},
+	"command_name":  {"%s yy\n", func(c ast.Command) (ast.Word, bool) { return c15Arg(c, 2, 0) }},
+	"after_and": {"x && %s yy\n", func(c ast.Command) (ast.Word, bool) {
+		if ao, ok := c.(*ast.AndOrList); ok && len(ao.List) == 1 && ao.List[0].Pipeline != nil {
+			return c15Arg(ao.List[0].Pipeline.Cmd, 2, 0)
+		}
+		return nil, false
+	}},
+	"after_and_newline": {"x &&\n%s\nyy\n", func(c ast.Command) (ast.Word, bool) {
+		if ao, ok := c.(*ast.AndOrList); ok && len(ao.List) == 1 && ao.List[0].Pipeline != nil {
+			return c15Arg(ao.List[0].Pipeline.Cmd, 1, 0)
+		}
+		return nil, false
+	}},
+	"after_pipe": {"x | %s yy\n", func(c ast.Command) (ast.Word, bool) {
+		if p, ok := c.(*ast.Pipeline); ok && len(p.List) == 1 {
+			return c15Arg(p.List[0].Cmd, 2, 0)
+		}
+		return nil, false
+	}},
+	"in_braces": {"{ %s yy; }\n", func(c ast.Command) (ast.Word, bool) {
+		if cm, ok := c.(*ast.Cmd); ok {
+			if g, ok := cm.Expr.(*ast.Group); ok && len(g.List) == 1 {
+				in := g.List[0]
+				if ao, ok := in.(*ast.AndOrList); ok && len(ao.List) == 0 {
+					in = ao.Pipeline
+				}
+				if p, ok := in.(*ast.Pipeline); ok && len(p.List) == 0 {
+					in = p.Cmd
+				}
+				return c15Arg(in, 2, 0)
+			}
+		}
+		return nil, false
+	}},
+	"case_word": {"case %s in yy) ;; esac\n", func(c ast.Command) (ast.Word, bool) {
+		if cm, ok := c.(*ast.Cmd); ok {
+			if cc, ok := cm.Expr.(*ast.CaseClause); ok && len(cc.Items) == 1 {
+				return cc.Word, true
+			}
+		}
+		return nil, false
+	}},
+	"case_pattern": {"case x in %s) yy;; esac\n", func(c ast.Command) (ast.Word, bool) {
+		if cm, ok := c.(*ast.Cmd); ok {
+			if cc, ok := cm.Expr.(*ast.CaseClause); ok && len(cc.Items) == 1 && len(cc.Items[0].Patterns) == 1 {
+				return cc.Items[0].Patterns[0], true
+			}
+		}
+		return nil, false
+	}},
+	"for_item": {"for i in %s yy\ndo x; done\n", func(c ast.Command) (ast.Word, bool) {
+		if cm, ok := c.(*ast.Cmd); ok {
+			if f, ok := cm.Expr.(*ast.ForClause); ok && len(f.Items) == 2 {
+				return f.Items[0], true
+			}
+		}
+		return nil, false
+	}},
+	"redirection": {"_ >%s yy\n", func(c ast.Command) (ast.Word, bool) {
+		if cm, ok := c.(*ast.Cmd); ok && len(cm.Redirs) == 1 {
+			if sc, ok := cm.Expr.(*ast.SimpleCmd); ok && len(sc.Args) == 2 {
+				return cm.Redirs[0].Word, true
+			}
+		}
+		return nil, false
+	}},
+	"in_substitution": {"_ $(_ %s yy) zz\n", func(c ast.Command) (ast.Word, bool) {
+		if w, ok := c15Arg(c, 3, 1); ok && len(w) == 1 {
+			if cs, ok := w[0].(*ast.CmdSubst); ok && len(cs.List) == 1 {
+				return c15Arg(cs.List[0], 3, 1)
+			}
+		}
+		return nil, false
+	}},
+}
+
+var c15CtxNames = []string{"arg_newline", "arg_then_word", "command_name", "after_and", "after_and_newline", "after_pipe", "in_braces", "case_word", "case_pattern", "for_item", "redirection", "in_substitution"}
+
+// c15Arg returns word i of a simple command of exactly n words.
+func c15Arg(c ast.Command, n, i int) (ast.Word, bool) {
+	cm, ok := c.(*ast.Cmd)
+	if !ok {
+		return nil, false
+	}
+	sc, ok := cm.Expr.(*ast.SimpleCmd)
+	if !ok || len(sc.Assigns) != 0 || len(sc.Args) != n {
+		return nil, false
+	}
+	return sc.Args[i], true
 }
 
 // quote writes s under the given quoting; ok=false if that quoting cannot
@@ -96,14 +199,25 @@ func checkC15(c c15Case) error {
 		return nil
 	}
 	src := "_ " + q
+	find := func(c ast.Command) (ast.Word, bool) { return c15Arg(c, 2, 1) }
+	if c.Ctx != "" {
+		cx, ok := c15Contexts[c.Ctx]
+		if !ok {
+			return fmt.Errorf("harness: unknown context %q", c.Ctx)
+		}
+		src, find = fmt.Sprintf(cx.tmpl, q), cx.find
+	}
 	cmd, _, err := parser.ParseCommand("c15", src)
 	if err != nil {
-		return fmt.Errorf("the quoted form %q of %q is rejected: %v", q, c.S, err)
+		return fmt.Errorf("the quoted form %q of %q is rejected in %q: %v", q, c.S, src, err)
 	}
-	sc, ok := cmd.(*ast.Cmd).Expr.(*ast.SimpleCmd)
-	if !ok || len(sc.Args) != 2 {
-		return fmt.Errorf("the quoted form %q of %q is not parsed as one word", q, c.S)
+	word, ok := find(cmd)
+	if !ok {
+		var b strings.Builder
+		printer.Fprint(&b, cmd)
+		return fmt.Errorf("the quoted form %q of %q is not parsed as one word of %q (the command reads %q)", q, c.S, src, b.String())
 	}
+	sc := &ast.SimpleCmd{Args: []ast.Word{nil, word}}
 	env := c15Env
 	// an adversarial IFS: every character of s, plus the usual ones
 	env.Set("IFS", c.S+" \t\nab")
@@ -252,7 +366,67 @@ func checkC15Embedded(c c15Embedded) error {
 	return nil
 }
 
+// c15Removal: the library's own consumer of quoted pattern text. With v =
+// Pre + S, removing the quoted S as a suffix leaves Pre; with v = S + Pre,
+// removing it as a prefix leaves Pre (the text matches itself and nothing
+// shorter or longer, so the smallest and the largest match are the same).
+type c15Removal struct {
+	S     string `json:"s"`
+	Quote string `json:"quote"`
+	Op    string `json:"op"` // % %% # ##
+	DQ    bool   `json:"dq"` // the whole expansion stands in double-quotes
+}
+
+func checkC15Removal(c c15Removal) error {
+	q, ok := c15Quote(c.S, c.Quote)
+	if !ok {
+		return nil
+	}
+	const rest = "pre.X"
+	v := rest + c.S
+	if c.Op[0] == '#' {
+		v = c.S + rest
+	}
+	w := "${v" + c.Op + q + "}"
+	if c.DQ {
+		w = `"` + w + `"`
+	}
+	cmd, _, err := parser.ParseCommand("c15", "_ "+w)
+	if err != nil {
+		return fmt.Errorf("%s is rejected: %v", w, err)
+	}
+	word, ok := c15Arg(cmd, 2, 1)
+	if !ok {
+		return fmt.Errorf("%s is not parsed as one word", w)
+	}
+	env := interp.NewExecEnv("sh")
+	env.Opts |= interp.NoGlob
+	env.Set("IFS", "")
+	env.Set("v", v)
+	var got []string
+	var gerr error
+	if e := guard(func() error { got, gerr = env.Expand(word, 0); return nil }); e != nil {
+		return fmt.Errorf("Expand(%s) with v=%q %v", w, v, e)
+	}
+	if gerr != nil || len(got) != 1 || got[0] != rest {
+		return fmt.Errorf("Expand(%s) with v=%q = %q, %v; the quoted text matches itself, so %q is left", w, v, got, gerr, rest)
+	}
+	// and it matches nothing else: a value that does not end (begin) with S stays
+	other := rest + "q"
+	if c.S != "" && !strings.HasSuffix(other, c.S) && !strings.HasPrefix(other, c.S) {
+		env.Set("v", other)
+		if e := guard(func() error { got, gerr = env.Expand(word, 0); return nil }); e != nil {
+			return fmt.Errorf("Expand(%s) with v=%q %v", w, other, e)
+		}
+		if gerr != nil || len(got) != 1 || got[0] != other {
+			return fmt.Errorf("Expand(%s) with v=%q = %q, %v; the quoted text does not occur there, so the value stays", w, other, got, gerr)
+		}
+	}
+	return nil
+}
+
 func init() {
+	reg("C15", "removal", checkC15Removal)
 	reg("C15", "embedded", checkC15Embedded)
 	reg("C15", "quoted", func(c c15Case) error {
 		leave, err := c15Dir("c15-replay")
@@ -266,7 +440,7 @@ func init() {
 
 var c15Modes = []uint{0, uint(interp.Arith), uint(interp.Assign), uint(interp.Literal), uint(interp.Pattern), uint(interp.Quote), uint(interp.Assign | interp.Quote)}
 
-var c15Alpha = []string{"'", `"`, `\`, "$", "`", "*", "?", "[", "]", "~", "#", "&", ";", "|", "<", ">", "(", ")", "{", "}", "!", "=", " ", "\t", "\n", "a", "b", "/", ":", "-", ".", "é"}
+var c15Alpha = []string{"'", `"`, `\`, "$", "`", "*", "?", "[", "]", "~", "#", "&", ";", "|", "<", ">", "(", ")", "{", "}", "!", "=", " ", "\t", "\n", "a", "b", "/", ":", "-", ".", "é", "\r", "^"}
 
 func TestC15(t *testing.T) {
 	st := newStats("C15")
@@ -288,8 +462,11 @@ func TestC15(t *testing.T) {
 		if err != nil {
 			fail(tt, "C15", "quoted", c, "%v", err)
 		}
+		if c.Ctx != "" {
+			st.Class("context_" + c.Ctx)
+		}
 		if rapidCase {
-			st.Eval(special(c.S), c.S, c.Quote, fmt.Sprint(c.Mode))
+			st.Eval(special(c.S), c.S, c.Quote, fmt.Sprint(c.Mode), c.Ctx)
 		} else if special(c.S) {
 			st.EvalN(1, 1)
 		} else {
@@ -314,8 +491,23 @@ func TestC15(t *testing.T) {
 					// a mix derived from the index: digits 0,1,2 select ', \ and "
 					how = "mixed:" + strings.Map(func(r rune) rune { return '0' + (r-'0')%3 }, fmt.Sprintf("%04d", idx%10000))
 				}
-				for _, m := range c15Modes {
+				for mi, m := range c15Modes {
 					run(t, c15Case{S: s, Quote: how, Mode: m}, false)
+					// the same word elsewhere in a command
+					run(t, c15Case{S: s, Quote: how, Mode: m, Ctx: c15CtxNames[(idx+qi+mi)%len(c15CtxNames)]}, false)
+				}
+				if n <= 2 {
+					for _, cx := range c15CtxNames {
+						run(t, c15Case{S: s, Quote: how, Mode: c15Modes[(idx+qi)%len(c15Modes)], Ctx: cx}, false)
+					}
+					for oi, op := range []string{"%", "%%", "#", "##"} {
+						rc := c15Removal{S: s, Quote: how, Op: op, DQ: (idx+oi)%2 == 0}
+						if err := checkC15Removal(rc); err != nil {
+							fail(t, "C15", "removal", rc, "%v", err)
+						}
+						st.EvalN(1, 1)
+						st.Class("removal_of_the_quoted_text")
+					}
 				}
 				if idx%20011 == 0 && qi == 0 {
 					st.Sample(map[string]any{"s": s, "quote": how, "modes": "all"})
@@ -369,7 +561,17 @@ func TestC15(t *testing.T) {
 		}
 		m := rapid.SampledFrom(c15Modes).Draw(rt, "mode")
 		c := c15Case{S: s, Quote: how, Mode: m}
+		if rapid.Bool().Draw(rt, "in_context") {
+			c.Ctx = rapid.SampledFrom(c15CtxNames).Draw(rt, "ctx")
+		}
 		run(rt, c, true)
+		if len(s) < 40 && rapid.IntRange(0, 3).Draw(rt, "removal") == 0 {
+			rc := c15Removal{S: s, Quote: how, Op: rapid.SampledFrom([]string{"%", "%%", "#", "##"}).Draw(rt, "rmop"), DQ: rapid.Bool().Draw(rt, "rmdq")}
+			if err := checkC15Removal(rc); err != nil {
+				fail(rt, "C15", "removal", rc, "%v", err)
+			}
+			st.Class("removal_of_the_quoted_text")
+		}
 		st.Sample(c)
 	}
 	runRapid(t, n, prop)
